@@ -210,6 +210,7 @@ type MyWorld struct {
 	deadInst map[string]bool
 	// network partitions between an instance (mysync on host X) and a MySQL host
 	blocked map[string]bool // "inst>host"
+	severed map[string]bool // "inst>host": statements fail at once
 	Version [3]int
 	done    chan struct{}
 }
@@ -373,6 +374,18 @@ func (w *MyWorld) Block(inst, host string)   { w.mu.Lock(); w.blocked[inst+">"+h
 // IsBlocked (caller holds the world lock).
 func (w *MyWorld) IsBlocked(inst, host string) bool { return w.blocked[inst+">"+host] }
 func (w *MyWorld) Unblock(inst, host string) { w.mu.Lock(); delete(w.blocked, inst+">"+host); w.mu.Unlock() }
+
+// Sever / Unsever: statements of one mysync instance to one MySQL host fail at once (the connection is reset),
+// unlike Block, which lets them hang until the caller's deadline.
+func (w *MyWorld) Sever(inst, host string) {
+	w.mu.Lock()
+	if w.severed == nil {
+		w.severed = map[string]bool{}
+	}
+	w.severed[inst+">"+host] = true
+	w.mu.Unlock()
+}
+func (w *MyWorld) Unsever(inst, host string) { w.mu.Lock(); delete(w.severed, inst+">"+host); w.mu.Unlock() }
 
 // ---- world actions (environment) ----------------------------------------------
 
@@ -907,6 +920,10 @@ func (w *MyWorld) execute(inst, host, q string, lockWait int) (*MyResult, *MyErr
 	call := &SQLCall{By: inst, At: host, Stmt: si.kind, Arg: si.arg, Mut: si.mut}
 	w.mu.Lock()
 	blocked := w.blocked[inst+">"+host]
+	if w.severed[inst+">"+host] {
+		w.mu.Unlock()
+		return nil, nil, true
+	}
 	if hh := w.Hosts[host]; hh != nil && hh.Net == "isolated" {
 		blocked = true // an isolated host answers nothing, on established connections either
 	}
